@@ -75,18 +75,21 @@ func runC04(c *ctx) {
 		runRD(c, "RD", rcfg{state: side, cb: 1, chk: true}, fs, "-", "r4096", "eof", "1000")
 		runRM(c, "RM", side, fs, "-", "r1000", "eof")
 	}
-	n := 400
+	n := 160
 	if c.thor {
 		n = 6000
 	}
 	for j := 0; j < n; j++ {
 		side := byte(1 + c.rng.Intn(2))
 		nf := 1 + c.rng.Intn(12)
-		if j%50 == 0 {
+		if j%50 == 7 {
 			nf = 100 + c.rng.Intn(100)
 		}
-		maxp := 2000
-		if j%100 == 0 {
+		maxp := 600
+		if c.thor {
+			maxp = 2000
+		}
+		if j%100 == 3 {
 			maxp = 70000
 		}
 		fs := c.randValidStream(side, nf, maxp)
